@@ -115,7 +115,7 @@ pub struct Receiver { pub read: ReadHalf, pub buf: BytesMut, pub finder: Finder 
 impl Receiver {
     pub open spec fn wf(&self) -> bool { recv_wf(self.read.pos@, self.read.stream@, self.buf@) }
 
-//@extract id=tls_recv file=netconf/src/transport/tls.rs impl=/impl RecvHandle for Receiver/ fn=recv rules=R1,R2,R3,R5,R6,R14 consts=MARKER
+//@extract id=tls_recv file=netconf/src/transport/tls.rs impl=/impl RecvHandle for Receiver/ fn=recv rules=R1,R2,R3,R5,R6,R14,R17 consts=MARKER
 //@contract
         requires old(self).wf(),
         ensures
@@ -166,7 +166,7 @@ pub struct Receiver { pub read: ChildStdout, pub buf: BytesMut, pub finder: Find
 impl Receiver {
     pub open spec fn wf(&self) -> bool { recv_wf(self.read.pos@, self.read.stream@, self.buf@) }
 
-//@extract id=junos_local_recv file=netconf/src/transport/junos_local.rs impl=/impl RecvHandle for Receiver/ fn=recv rules=R1,R2,R3,R5,R6,R14 consts=MARKER
+//@extract id=junos_local_recv file=netconf/src/transport/junos_local.rs impl=/impl RecvHandle for Receiver/ fn=recv rules=R1,R2,R3,R5,R6,R14,R17 consts=MARKER
 //@contract
         requires old(self).wf(),
         ensures
